@@ -62,7 +62,10 @@ def cases(tier, seed):
     for d, biased, scr, shift in itertools.product(devs, (False, True), (False,) if quick else (False, True), ((2.5, -1.5), (40.0, 25.0))):
         if biased and d == "G5":
             continue
-        out.append(dict(fam="run", dev=d, biased=biased, screening=scr, shift=list(shift)))
+        out.append(dict(fam="run", dev=d, biased=biased, screening=scr, shift=list(shift), ramp=0.0))
+    # time-dependent fields: the potential changes every step, slowly and fast, in the shifted gauge too
+    for d, shift, ramp in itertools.product(devs[:1] if quick else devs[:2], ((40.0, 25.0), (2.5, -1.5)), (2e-3, 0.5)):
+        out.append(dict(fam="run", dev=d, biased=False, screening=False, shift=list(shift), ramp=ramp))
     return out
 
 
@@ -173,6 +176,13 @@ def _shifted_A(x, y, z, *, B, x0, y0):
     return np.stack([-B * (y - y0) / 2, B * (x - x0) / 2, np.zeros_like(x)], axis=1)
 
 
+def _shifted_A_t(x, y, z, *, t, B, x0, y0, rate):
+    # the field is time dependent, the gauge shift B/2 (y0, -x0) is not (a time-dependent shift would also
+    # change mu by a position-dependent amount, which is outside the statement)
+    b = B + rate * t
+    return np.stack([-b * y / 2 + B * y0 / 2, b * x / 2 - B * x0 / 2, np.zeros_like(x)], axis=1)
+
+
 TERMS = {"G1": ["source", "drain"], "G2": ["source", "drain"], "G3": ["left", "right", "stem"]}
 
 
@@ -200,7 +210,10 @@ def run_run(case):
                                   progress_interval=10**9)
 
     def run(x0, y0, tag):
-        A = tdgl.Parameter(_shifted_A, B=B, x0=x0, y0=y0)
+        if case.get("ramp"):
+            A = tdgl.Parameter(_shifted_A_t, time_dependent=True, B=B, x0=x0, y0=y0, rate=case["ramp"])
+        else:
+            A = tdgl.Parameter(_shifted_A, B=B, x0=x0, y0=y0)
         # one-frame file of this problem, psi overwritten with exp(i chi), used as the seed
         s0 = tdgl.solve(dev, opts(f"seed-{tag}.h5", 0), applied_vector_potential=A, **kw)
         solver = tdgl.TDGLSolver(dev, opts(f"x-{tag}.h5", nsteps), applied_vector_potential=A, **kw)
